@@ -76,6 +76,10 @@ type World struct {
 	// CloseLag: in the fair closing schedule the kubelet acts only after CloseLag extra reconciles of each
 	// round (so reconciles do observe terminating / not yet ready pods)
 	CloseLag int `json:"close_lag,omitempty"`
+	// EventMode: every cache refresh of the history delivers its add/update/delete notifications through the
+	// handlers the controller registered, and the closing schedule is event-driven: a reconcile happens only
+	// for a key that an event put into the work queue (quiescence = queue empty, caches current)
+	EventMode bool `json:"event_mode,omitempty"`
 }
 
 // Op kinds
@@ -99,13 +103,15 @@ const (
 	OpRestart
 	OpEditLimit
 	OpEditStrategy
-	OpSetRecreate // the set is deleted and re-created with a new UID (API only; caches lag until refreshed)
-	OpSetRemove   // the set disappears from the API (caches lag)
+	OpSetRecreate  // the set is deleted and re-created with a new UID (API only; caches lag until refreshed)
+	OpSetRemove    // the set disappears from the API (caches lag)
+	OpAddOrphanPod // somebody creates an unowned pod named S-<a> whose labels match the selector
+	OpOrphanPod    // the owner references of pod a are stripped (orphaning delete of a previous owner, manual edit)
 	numOpKinds
 )
 
 var opNames = [...]string{"reconcile", "kubelet", "refreshAll", "refreshPod", "refreshSet", "editReplicas", "slotAdd", "slotRemove",
-	"editTemplate", "editPartition", "editMeta", "userDeletePod", "settle", "scaleInAt", "pause", "markDeleting", "restart", "editLimit", "editStrategy", "setRecreate", "setRemove"}
+	"editTemplate", "editPartition", "editMeta", "userDeletePod", "settle", "scaleInAt", "pause", "markDeleting", "restart", "editLimit", "editStrategy", "setRecreate", "setRemove", "addOrphanPod", "orphanPod"}
 
 // Fault kinds for a reconcile op
 const (
@@ -131,7 +137,7 @@ type Op struct {
 	// reconcile only
 	Refresh   int    `json:"refresh,omitempty"`    // 0 full refresh before, 1 none (stale), 2 pods only, 3 set only
 	Perm      uint64 `json:"perm,omitempty"`       // cache list order
-	FaultAt   int    `json:"fault_at,omitempty"`   // 1-based call index the fault hits; 0 = none
+	FaultAt   int    `json:"fault_at,omitempty"`   // 1-based call index the fault hits; 0 = none; -1 = the first status write of the reconcile
 	Fault     int    `json:"fault,omitempty"`      // fault kind
 	InterAt   int    `json:"inter_at,omitempty"`   // 1-based call index before which an environment op runs; 0 = none
 	InterKind int    `json:"inter_kind,omitempty"` // env op kind (kubelet / refresh / edit …), same encoding as K
@@ -143,6 +149,8 @@ type Op struct {
 	// 5 the pod create is rejected with 403 Forbidden (quota), 6 with 422 Invalid
 	PVCFault int `json:"pvc_fault,omitempty"`
 	PVCIdx   int `json:"pvc_idx,omitempty"` // which claim create / lookup of the reconcile is hit (0-based)
+
+	queued bool // internal: the reconcile was taken from the work queue by the event-driven closing
 }
 
 func (o Op) String() string {
@@ -150,7 +158,7 @@ func (o Op) String() string {
 	switch o.K {
 	case OpReconcile:
 		s += fmt.Sprintf("(refresh=%d perm=%d", o.Refresh, o.Perm)
-		if o.FaultAt > 0 {
+		if o.FaultAt != 0 {
 			s += fmt.Sprintf(" fault=%s@%d", faultNames[o.Fault], o.FaultAt)
 		}
 		if o.InterAt > 0 {
@@ -460,6 +468,11 @@ func BuildWorld(rep Rep, w *World) *Sys {
 		c.Put(r)
 	}
 	c.RefreshAll()
+	if w.EventMode {
+		// the initial list of a starting controller: one add event for the set
+		c.DrainQueue()
+		c.Enqueue(s.Key)
+	}
 	initial := c.Dump()
 	s.Trace = append(s.Trace, func() string { return "initial state:\n" + initial })
 	return s
@@ -557,7 +570,11 @@ func (s *Sys) envOp(k, a, b int) {
 			}
 		}
 	case OpRefreshAll:
-		c.RefreshAll()
+		if s.W != nil && s.W.EventMode {
+			s.SyncCachesNotify()
+		} else {
+			c.RefreshAll()
+		}
 		s.logf("refresh all caches")
 	case OpRefreshPod:
 		// a may also address a pod that exists only in the cache (deleted in the API)
@@ -573,11 +590,11 @@ func (s *Sys) envOp(k, a, b int) {
 		ks := keys(names)
 		if len(ks) > 0 {
 			n := ks[abs(a)%len(ks)]
-			c.RefreshPod(NS, n, false)
+			c.RefreshPod(NS, n, s.W != nil && s.W.EventMode)
 			s.logf("refresh cache of pod %s", n)
 		}
 	case OpRefreshSet:
-		c.RefreshSet(NS, s.Name, false)
+		c.RefreshSet(NS, s.Name, s.W != nil && s.W.EventMode)
 		s.logf("refresh cache of set")
 	case OpEditReplicas:
 		v := int32(abs(a) % 6)
@@ -670,6 +687,29 @@ func (s *Sys) envOp(k, a, b int) {
 		if c.MarkSetDeleting(NS, s.Name) {
 			s.logf("user: delete set (deletionTimestamp set)")
 		}
+	case OpAddOrphanPod:
+		if set := c.Set(NS, s.Name); set != nil {
+			ord := abs(a) % 9
+			name := fmt.Sprintf("%s-%d", s.Name, ord)
+			if c.Pod(NS, name) == nil {
+				img := set.Spec.Template.Spec.Containers[0].Image
+				p := mkPod(set, ord, "", img, 3, false)
+				for t, rn := range s.RevOf {
+					if tmplImage(t) == img {
+						p.Labels["controller-revision-hash"] = rn
+					}
+				}
+				p.OwnerReferences = nil
+				c.Put(p)
+				s.logf("somebody creates unowned pod %s", name)
+			}
+		}
+	case OpOrphanPod:
+		if p := s.pickPod(a); p != nil && len(p.OwnerReferences) > 0 {
+			p.OwnerReferences = nil
+			c.Put(p)
+			s.logf("owner references of pod %s stripped", p.Name)
+		}
 	case OpSetRecreate:
 		if old := c.Set(NS, s.Name); old != nil {
 			c.Remove(sim.GVRASts, NS, s.Name)
@@ -690,6 +730,9 @@ func (s *Sys) envOp(k, a, b int) {
 	case OpRestart:
 		c.Restart()
 		c.RefreshAll()
+		if s.W != nil && s.W.EventMode {
+			c.Enqueue(s.Key) // the initial list of the new controller
+		}
 		s.logf("controller restart")
 	}
 }
@@ -705,14 +748,28 @@ func abs(x int) int {
 // record to the monitors.
 func (s *Sys) Reconcile(op *Op) *sim.Record {
 	c := s.C
+	ev := s.W != nil && s.W.EventMode
 	switch op.Refresh {
 	case 0:
-		c.RefreshAll()
+		if ev {
+			s.SyncCachesNotify()
+		} else {
+			c.RefreshAll()
+		}
 	case 2:
-		c.RefreshPods()
-		c.RefreshPVCs()
+		if ev {
+			s.syncPodsNotify()
+			c.RefreshPVCs()
+		} else {
+			c.RefreshPods()
+			c.RefreshPVCs()
+		}
 	case 3:
-		c.RefreshSet(NS, s.Name, false)
+		c.RefreshSet(NS, s.Name, ev)
+	}
+	if ev && !op.queued {
+		// a reconcile of the history serves every event delivered before it started
+		c.DrainQueue()
 	}
 	c.ListPerm = op.Perm
 	n := 0
@@ -767,6 +824,10 @@ func (s *Sys) Reconcile(op *Op) *sim.Record {
 			faultDone = true
 			return s.makeFault(op.Fault, a)
 		}
+		if op.FaultAt == -1 && !faultDone && a.Resource == "statefulsets" && a.Subresource == "status" && a.Verb == "update" {
+			faultDone = true
+			return s.makeFault(op.Fault, a)
+		}
 		return nil
 	}
 	var r *sim.Record
@@ -777,6 +838,11 @@ func (s *Sys) Reconcile(op *Op) *sim.Record {
 	}
 	c.Intercept = nil
 	c.PVCListerHook = nil
+	if ev && !op.queued && !op.Worker && (r.Err != nil || r.Crashed) {
+		// a worker would have put the key back after a failed reconcile (and a restarted controller lists
+		// everything again): the retry is pending in the queue
+		c.Enqueue(s.Key)
+	}
 	s.Reconciles++
 	s.Trace = append(s.Trace, func() string { return strings.TrimRight(r.Transcript(), "\n") })
 	if s.OnRecord != nil {
@@ -917,6 +983,9 @@ func genOps(rt *rapid.T, maxOps int, w opWeights, faults, interference bool) []O
 			}
 			if faults && rapid.IntRange(0, 5).Draw(rt, "faulty") == 0 {
 				op.FaultAt = rapid.IntRange(1, 12).Draw(rt, "faultAt")
+				if rapid.IntRange(0, 3).Draw(rt, "faultOnStatusWrite") == 0 {
+					op.FaultAt = -1
+				}
 				op.Fault = rapid.SampledFrom([]int{FServerError, FTimeoutLost, FTimeoutApplied, FConflict, FNotFound, FAlreadyExists}).Draw(rt, "fault")
 			}
 			if interference && rapid.IntRange(0, 4).Draw(rt, "interfere") == 0 {
@@ -937,6 +1006,7 @@ func genOps(rt *rapid.T, maxOps int, w opWeights, faults, interference bool) []O
 var defaultWeights = opWeights{
 	OpReconcile: 10, OpKubelet: 8, OpRefreshAll: 1, OpRefreshPod: 2, OpRefreshSet: 1, OpEditReplicas: 2, OpEditSlotAdd: 2,
 	OpEditSlotRemove: 1, OpEditTemplate: 2, OpEditPartition: 1, OpEditMeta: 1, OpUserDeletePod: 1, OpSettle: 2, OpScaleInAt: 2,
+	OpAddOrphanPod: 1, OpOrphanPod: 1,
 }
 
 func summarizeWorld(w World) map[string]interface{} {
@@ -983,4 +1053,66 @@ func (s *Sys) Converge(maxRounds int) (fixed bool, rounds int, livelock bool) {
 		prev = cur
 	}
 	return false, maxRounds, false
+}
+
+// syncPodsNotify brings the pod cache up to date object by object, delivering the notifications.
+func (s *Sys) syncPodsNotify() (changed bool) {
+	names := map[string]bool{}
+	for _, p := range s.C.PodsIn(NS) {
+		names[p.Name] = true
+	}
+	for _, p := range s.C.CachePods() {
+		if p.Namespace == NS {
+			names[p.Name] = true
+		}
+	}
+	for _, n := range keys(names) {
+		if s.C.RefreshPod(NS, n, true) {
+			changed = true
+		}
+	}
+	return
+}
+
+// SyncCachesNotify: the informers catch up with the API, every change delivered as an event.
+func (s *Sys) SyncCachesNotify() (changed bool) {
+	changed = s.syncPodsNotify()
+	if s.C.RefreshSet(NS, s.Name, true) {
+		changed = true
+	}
+	s.C.RefreshPVCs()
+	return
+}
+
+// ConvergeEvents is the event-driven closing schedule: caches catch up (with notifications), the real
+// worker processes whatever the handlers queued, the kubelet readies / finalises pods; repeated until
+// nothing changes, the queue is empty and the caches are current.
+func (s *Sys) ConvergeEvents(maxRounds int) (fixed bool, rounds int) {
+	for i := 0; i < maxRounds; i++ {
+		changed := s.SyncCachesNotify()
+		worked := false
+		for n := 0; n < 64 && s.C.QueueLen() > 0; n++ {
+			op := &Op{K: OpReconcile, Refresh: 1, queued: true}
+			r := s.C.ReconcileNextQueued()
+			if r == nil {
+				break
+			}
+			worked = true
+			s.Reconciles++
+			s.Trace = append(s.Trace, func() string { return "[queued] " + strings.TrimRight(r.Transcript(), "\n") })
+			if s.OnRecord != nil {
+				s.OnRecord(r, op)
+			}
+			// the reconcile's own writes come back as events
+			if s.SyncCachesNotify() {
+				changed = true
+			}
+		}
+		before := s.C.Dump()
+		s.KubeletAll()
+		if !changed && !worked && s.C.Dump() == before && s.C.QueueLen() == 0 {
+			return true, i + 1
+		}
+	}
+	return false, maxRounds
 }
